@@ -30,6 +30,10 @@ type ExecPlan struct {
 	StartAfter  []int   // request i starts once this many storage calls have been released (default 0)
 	Sticky      int     // scheduler bursts (see Sched.Sticky)
 	ParkSQL     bool    // every SQL statement (L2 seam) is a scheduling point too: requests interleave between the statements of one storage call
+	// simulated time: every released storage call takes Latency on the bubble's fake
+	// clock, and the context of request 0 carries a deadline Deadline after its start
+	Latency  time.Duration
+	Deadline time.Duration
 }
 
 func NoFaults() ExecPlan { return ExecPlan{CancelAfter: -1, MaxSteps: 20000} }
@@ -115,6 +119,7 @@ func (e *Env) Exec(tape *Tape, reqs []*Request, plan ExecPlan) *ExecResult {
 	}
 	s.CancelAfter = plan.CancelAfter
 	s.Sticky = plan.Sticky
+	s.Latency = plan.Latency
 	s.LateCompletions = plan.Late
 	if plan.MaxSteps == 0 {
 		plan.MaxSteps = 20000
@@ -135,6 +140,10 @@ func (e *Env) Exec(tape *Tape, reqs []*Request, plan ExecPlan) *ExecResult {
 			launch := make([]func(), len(reqs))
 			for i, rq := range reqs {
 				ctx, cancel := context.WithCancel(withReq(context.Background(), i))
+				if plan.Deadline > 0 && i == 0 {
+					cancel()
+					ctx, cancel = context.WithTimeout(withReq(context.Background(), i), plan.Deadline)
+				}
 				s.Cancels = append(s.Cancels, cancel)
 				if plan.CancelAfter == 0 && i == 0 {
 					cancel()
